@@ -574,7 +574,15 @@ class Schema(ResolverMap):
             },
         )
 
-        cloned.merge_resolvers(self)
+        # The copied fields and types carry their resolvers already. The
+        # resolver map is copied as it is rather than registered again: it can
+        # hold entries under names a transform has since renamed or hidden,
+        # which registration rejects.
+        cloned.resolvers = {t: dict(r) for t, r in self.resolvers.items()}
+        cloned.subscriptions = {
+            t: dict(r) for t, r in self.subscriptions.items()
+        }
+        cloned.default_resolvers = dict(self.default_resolvers)
         cloned.default_resolver = self.default_resolver
 
         return cloned
